@@ -302,11 +302,12 @@ func (c *controlConn) setupConn(conn *Conn) error {
 		return err
 	}
 
-	host = c.session.ring.addOrUpdate(host)
-
+	// evaluate the filter before the host is stored: a rejected contact point must not become a known host
 	if c.session.cfg.filterHost(host) {
 		return fmt.Errorf("host was filtered: %v", host.ConnectAddress())
 	}
+
+	host = c.session.ring.addOrUpdate(host)
 
 	if err := c.registerEvents(conn); err != nil {
 		return fmt.Errorf("register events: %v", err)
